@@ -38,7 +38,9 @@ EXPLANATION = (
     "OpMOne/OpTrue/OpFalse) must be preceded by a `return NULL` guard whose condition, with op fixed to that label, "
     "peepBValOpInfo[] cells read from the table and peepNoSideFx(operand) := false, evaluates to true; in peepBinaryBCall "
     "every `arg = l|r` selection and in peepNegate the operand swap must sit under a condition that evaluates to false when "
-    "foamHasSideEffect := true, peepNoSideFx := false and peepFoamIsValue := false (an impure operand is not a literal). Not decided: that any pass preserves "
+    "foamHasSideEffect := true, peepNoSideFx := false and peepFoamIsValue := false (an impure operand is not a literal). Q5: in of_deadv.c every assignment to a `.used` "
+    "usage state is monotone over the states its variable family can have (initial 0 and every constant assigned to the family): for "
+    "each state s and each value t the write can store, if the enclosing conditions on the same lvalue hold for s then t >= s. Not decided: that any pass preserves "
     "meaning on any program.")
 
 FROZEN = os.path.join(os.path.dirname(__file__), "frozen")
@@ -381,6 +383,135 @@ def q4(rep, f_peep):
     rep.floor("operand swaps in peepNegate", nswap, 1)
 
 
+def q5(rep):
+    """Dead-variable elimination: the usage state of a variable only ever rises (Unused < DefinedNoSdEfx < DefinedSdEfx < Keep < Used),
+    so 'some definition has side effects' is never forgotten."""
+    from .peval import peval
+    f = common.extract("of_deadv.c", all_trees=True)
+    states = None
+    for e in f.raw["enums"]:
+        d = dict(e["e"])
+        if "DV_DefinedSdEfx" in d:
+            states = d
+    if states is None:
+        raise AnalysisBroken("enumeration usageState (DV_...) not found")
+    name_of = {v: n for n, v in states.items()}
+    writes = []
+    for name, fn in f.funcs.items():
+        if "body" not in fn or not fn.get("file", "").endswith("of_deadv.c"):
+            continue
+        par = None
+        for x in walk(fn["body"]):
+            if x["k"] == "BinaryOperator" and x["op"] == "=":
+                l = strip(x["c"][0])
+                if l is None or l["k"] != "MemberExpr" or l.get("n") != "used":
+                    continue
+                if par is None:
+                    par = common.parents(fn["body"])
+                base = strip(l["c"][0])
+                fam = None
+                for y in walk(base):
+                    if y["k"] == "DeclRefExpr" and y.get("dk") == "var":
+                        fam = y["n"]
+                        break
+                # possible values
+                r = strip(x["c"][1])
+                vals = set()
+                cv = const_value(r)
+                if cv is not None:
+                    vals.add(cv)
+                elif r is not None and r["k"] == "DeclRefExpr":
+                    for y in walk(fn["body"]):
+                        if y["k"] == "BinaryOperator" and y["op"] == "=" and strip(y["c"][0]) is not None and strip(y["c"][0]).get("did") == r.get("did"):
+                            for z in walk(y["c"][1]):
+                                if z["k"] == "DeclRefExpr" and z.get("dk") == "enum":
+                                    vals.add(z["v"])
+                    if r.get("dk") == "parm":
+                        vals = None        # any value: only a `current < new` guard can make it monotone
+                # enclosing guards that mention the same lvalue
+                target = render(l)
+                guards = []
+                ch, p = x, par.get(x["id"])
+                while p is not None:
+                    if p["k"] == "IfStmt" and p["c"][1] is not None and p["c"][1]["id"] == ch["id"]:
+                        guards.append((p["c"][0], True))
+                    elif p["k"] == "IfStmt" and p["c"][2] is not None and p["c"][2]["id"] == ch["id"]:
+                        guards.append((p["c"][0], False))
+                    ch, p = p, par.get(p["id"])
+                writes.append({"func": name, "line": x["l"], "family": fam, "target": target, "vals": vals, "guards": guards, "rhs": r})
+    if len(writes) < 2:
+        raise AnalysisBroken("of_deadv.c: assignments to the .used state not found")
+    fam_states = {}
+    for w in writes:
+        fam_states.setdefault(w["family"], {0})
+        if w["vals"]:
+            fam_states[w["family"]] |= w["vals"]
+    n = 0
+    for w in writes:
+        n += 1
+        key = "usage-monotone:%s:%s@%d" % (w["func"], w["family"], n)
+        where = "of_deadv.c:%d (%s)" % (w["line"], w["func"])
+        if w["vals"] is None:
+            # a raw setter (the new state is its parameter): every call of it must sit under `current < new`
+            bad_calls = []
+            ncalls = 0
+            for name2, fn2 in f.funcs.items():
+                if "body" not in fn2 or not fn2.get("file", "").endswith("of_deadv.c"):
+                    continue
+                par2 = None
+                for c in common.calls(fn2["body"], w["func"]):
+                    ncalls += 1
+                    if par2 is None:
+                        par2 = common.parents(fn2["body"])
+                    newv = render(strip(c["c"][-1]))
+                    ok2 = False
+                    ch, p = c, par2.get(c["id"])
+                    while p is not None:
+                        if p["k"] == "IfStmt" and p["c"][1] is not None and p["c"][1]["id"] == ch["id"]:
+                            cd = strip(p["c"][0])
+                            if cd is not None and cd["k"] == "BinaryOperator" and cd["op"] == "<" and render(strip(cd["c"][1])) == newv:
+                                ok2 = True
+                        ch, p = p, par2.get(p["id"])
+                    if not ok2:
+                        bad_calls.append("%s:%d" % (name2, c["l"]))
+            if ncalls and not bad_calls:
+                rep.ok("Q5", key, sample={"setter": w["func"], "calls": ncalls, "rule": "every call under `current < new`"})
+            else:
+                rep.violation("Q5", key, where, "the raw setter %s is called outside a `current < new` test (%s): the usage state can be lowered"
+                              % (w["func"], ", ".join(bad_calls) or "no call found"))
+            continue
+
+        def holds(s_, newv):
+            def lookup(nd, env):
+                if nd["k"] == "MemberExpr" and render(nd) == w["target"]:
+                    return s_
+                if nd["k"] == "DeclRefExpr" and newv is not None and w["rhs"] is not None and nd.get("did") == w["rhs"].get("did"):
+                    return newv
+                return None
+            res = True
+            for cond, pol in w["guards"]:
+                v = peval(cond, {}, lookup)
+                if v is None:
+                    continue              # unrelated condition: may hold
+                if bool(v) != pol:
+                    res = False
+            return res
+        bad = None
+        cand_new = sorted(w["vals"]) if w["vals"] else sorted(states.values())
+        for s_ in sorted(fam_states[w["family"]] if w["vals"] else states.values()):
+            for t in cand_new:
+                if t < s_ and holds(s_, t):
+                    bad = (s_, t)
+        if bad is None:
+            rep.ok("Q5", key, sample={"site": where, "write": "%s = %s" % (w["target"], render(w["rhs"]))} if n <= 2 else None)
+        else:
+            rep.violation("Q5", key, where,
+                          "`%s = %s` can lower the usage state from %s to %s: a variable already known to have a side-effecting "
+                          "definition is demoted, and dvReplaceAssignment then deletes that definition together with its side effects"
+                          % (w["target"], render(w["rhs"]), name_of.get(bad[0]), name_of.get(bad[1])))
+    rep.floor("writes of the dead-variable usage state", n, 2)
+
+
 def q3(rep, f_foam):
     frozen = json.load(open(os.path.join(FROZEN, "c02_classifier_tags.json")))
     for fname, want in frozen.items():
@@ -546,6 +677,7 @@ def run(tier, only=None):
     q2(rep, info, f_genc)
     q3(rep, f_foam)
     q4(rep, f_peep)
+    q5(rep)
     rep.assumptions += ["allocation and errno are not effects",
                         "the meaning of the table columns is the one fixed by peepBinaryBCall/peepUnaryBCall/peepNegate "
                         "(operands of a binary dual are swapped)",
